@@ -229,8 +229,9 @@ func (p *Proof) SetExpected(pk *gabikeys.PublicKey, challenge, response *big.Int
 // commitment collapses to the same constant, so that the proof would verify without any witness.
 func (p *Proof) basesAreUnits(pk *gabikeys.PublicKey) bool {
 	for _, c := range []*big.Int{p.Cr, p.Cu} {
-		if c == nil || c.Sign() <= 0 || c.Cmp(pk.N) >= 0 ||
-			new(big.Int).GCD(nil, nil, c, pk.N).Cmp(bigOne) != 0 {
+		// (no upper bound: a prepared commitment refreshed by ProofCommit.Update used to carry an
+		// unreduced C_u)
+		if c == nil || c.Sign() <= 0 || new(big.Int).GCD(nil, nil, c, pk.N).Cmp(bigOne) != 0 {
 			return false
 		}
 	}
@@ -291,7 +292,7 @@ func (c *ProofCommit) Update(commitments []*big.Int, witness *Witness) {
 	Logger.Tracef("revocation.ProofCommit.Update()")
 	defer Logger.Tracef("revocation.ProofCommit.Update() done")
 	c.cu = new(big.Int).Exp(c.g.H, c.secrets["epsilon"], c.g.N)
-	c.cu.Mul(c.cu, witness.U)
+	c.cu.Mul(c.cu, witness.U).Mod(c.cu, c.g.N)
 	c.nu = witness.SignedAccumulator.Accumulator.Nu
 	c.sacc = witness.SignedAccumulator
 
